@@ -23,13 +23,13 @@ pub struct SinkDoc {
     pub pad: String,
 }
 
-fn reply(nonce: u64, kind: &str, len: usize, dig: u64) -> Result<Response<Body>, HttpError> {
+fn reply(nonce: u64, kind: &str, len: usize, dig: u64, limit: usize) -> Result<Response<Body>, HttpError> {
     Ok(Response::builder()
         .status(200)
         .header("content-type", "application/json")
         .body(Body::from(format!(
-            "{{\"nonce\":{},\"kind\":\"{}\",\"len\":{},\"dig\":{}}}",
-            nonce, kind, len, dig
+            "{{\"nonce\":{},\"kind\":\"{}\",\"len\":{},\"dig\":{},\"limit\":{}}}",
+            nonce, kind, len, dig, limit
         )))
         .unwrap())
 }
@@ -40,7 +40,7 @@ async fn h_json(rqctx: RequestContext<SimCtx>, body: TypedBody<SinkDoc>) -> Resu
     let g = HGuard::enter(w, h.nonce, 10);
     let d = body.into_inner();
     w.log(Ev::StreamChunk, NOCONN, h.nonce, d.pad.len() as u64, d.pad.len() as u64);
-    let r = reply(h.nonce, "json", d.pad.len(), fnv(d.pad.as_bytes()) ^ d.n);
+    let r = reply(h.nonce, "json", d.pad.len(), fnv(d.pad.as_bytes()) ^ d.n, rqctx.request_body_max_bytes());
     g.finish();
     r
 }
@@ -51,7 +51,7 @@ async fn h_form(rqctx: RequestContext<SimCtx>, body: TypedBody<SinkDoc>) -> Resu
     let g = HGuard::enter(w, h.nonce, 11);
     let d = body.into_inner();
     w.log(Ev::StreamChunk, NOCONN, h.nonce, d.pad.len() as u64, d.pad.len() as u64);
-    let r = reply(h.nonce, "form", d.pad.len(), fnv(d.pad.as_bytes()) ^ d.n);
+    let r = reply(h.nonce, "form", d.pad.len(), fnv(d.pad.as_bytes()) ^ d.n, rqctx.request_body_max_bytes());
     g.finish();
     r
 }
@@ -62,7 +62,7 @@ async fn h_raw(rqctx: RequestContext<SimCtx>, body: UntypedBody) -> Result<Respo
     let g = HGuard::enter(w, h.nonce, 12);
     let b = body.as_bytes();
     w.log(Ev::StreamChunk, NOCONN, h.nonce, b.len() as u64, b.len() as u64);
-    let r = reply(h.nonce, "raw", b.len(), fnv(b));
+    let r = reply(h.nonce, "raw", b.len(), fnv(b), rqctx.request_body_max_bytes());
     g.finish();
     r
 }
@@ -89,7 +89,7 @@ async fn h_stream(rqctx: RequestContext<SimCtx>, body: StreamingBody) -> Result<
     }
     let r = match err {
         Some(e) => Err(e),
-        None => reply(h.nonce, "stream", all.len(), fnv(&all)),
+        None => reply(h.nonce, "stream", all.len(), fnv(&all), rqctx.request_body_max_bytes()),
     };
     g.finish();
     r
@@ -128,7 +128,7 @@ async fn h_mp(rqctx: RequestContext<SimCtx>, mut body: MultipartBody) -> Result<
     }
     let r = match failed {
         Some(e) => Err(HttpError::for_bad_request(None, format!("multipart: {e}"))),
-        None => reply(h.nonce, "mp", all.len(), fnv(&all)),
+        None => reply(h.nonce, "mp", all.len(), fnv(&all), rqctx.request_body_max_bytes()),
     };
     g.finish();
     r
